@@ -39,8 +39,10 @@ KERNELS = [
 
 def dependents(name, prop):
     """compiled files that must not survive when Gen/<name>.v cannot be produced"""
-    return (["Gen/%s" % name, "Proof/Refine%s" % name] + ["Props/GenTie%s" % p for p in prop.split(",")]
-            + ["Proof/RefineC17", "Props/GenTie"])
+    out = ["Gen/%s" % name, "Proof/Refine%s" % name]
+    for p in prop.split(","):
+        out += ["Props/GenTie%s" % p, "Proof/Refine%s" % p, "Proof/Refine%sb" % p]
+    return out + ["Props/GenTie"]
 
 
 def _drop_compiled(stem):
